@@ -19,6 +19,7 @@ def _knobs(rng, *, conc=True):
         "clock_jump": rng.choice([0.0, 0.0, 0.2]),
         "workdir": rng.choice(["w", "w", "w", "w.v2", "my data", "résultats"]),
         "relpath": rng.choice([None, None, None, None, "", "./"]),
+        "pct_depth": rng.choice([0, 0, 0, 0, 0, 1, 2, 3]) if conc else 0,
     }
 
 
